@@ -283,6 +283,13 @@ pub fn eval_case(case: &Case, st: &mut Stats) -> Vec<Fail> {
                                 format!("inherited_prefixes of {} #{} in {}: {}={} is not in scope at the parent ({:?})", kind, i, show(), p, u, pscope),
                             ));
                         }
+                        // what the node inherits is part of its own scope: a prefix the node redeclares is not inherited
+                        if i != 0 && scope.get(p) != Some(u) {
+                            fails.push(Fail::new(
+                                format!("inherited|{}|shadowed-by-the-node-itself", kind),
+                                format!("inherited_prefixes of {} #{} in {}: {}={} is not in scope at the node itself ({:?})", kind, i, show(), p, u, scope),
+                            ));
+                        }
                         if !unres.contains(u) {
                             fails.push(Fail::new(
                                 format!("inherited|{}|not-unresolved", kind),
@@ -291,7 +298,8 @@ pub fn eval_case(case: &Case, st: &mut Stats) -> Vec<Fail> {
                         }
                     }
                     for m in &must {
-                        if pscope.values().any(|u| u == m) && !inh.values().any(|u| u == m) {
+                        // (a binding of the parent that the node itself redeclares cannot be inherited)
+                        if pscope.iter().any(|(p, u)| u == m && !a.nss.iter().any(|d| d.name == *p)) && !inh.values().any(|u| u == m) {
                             fails.push(Fail::new(
                                 format!("inherited|{}|missing", kind),
                                 format!("inherited_prefixes of {} #{} in {}: {} is needed and bound at the parent ({:?}) but not inherited: {:?}", kind, i, show(), m, pscope, inh),
